@@ -39,6 +39,7 @@ def Ty.nonEmpty : Ty → Bool
   | .struct none fs => fs.nonEmpty
   | .ptr t => t.nonEmpty
   | .iface _ alts => alts.nonEmpty
+  | .custom _ _ => true
 def Fields.nonEmpty : Fields → Bool
   | .nil => false
   | .cons false t rest => t.nonEmpty || rest.nonEmpty
@@ -62,6 +63,7 @@ def Ty.isKey : Ty → Bool
   | .byteArr _ _ _ _ => true
   | .array _ _ r e => !(r.autoSort && r.lex) && e.isKey
   | .struct _ fs => fs.isKey
+  | .custom _ _ => true
   | _ => false
 def Fields.isKey : Fields → Bool
   | .nil => true
@@ -112,6 +114,7 @@ def Ty.wf : Ty → Bool
   | .struct code fs => codeWf code && fs.wf
   | .ptr t => t.ptrTarget && t.wf
   | .iface den alts => alts.wf den && nodupB alts.codes
+  | .custom code _ => codeWf code
 def Fields.wf : Fields → Bool
   | .nil => true
   | .cons false t rest => t.wf && rest.wf
